@@ -1235,6 +1235,24 @@ func (t *State) payFee(tx *pb.Transaction, batch kvdb.Batch, block *pb.InternalB
 	return nil
 }
 
+// isConfirmedOnCurrentChain 交易是否已经在状态机当前所在的链上被确认: 交易所在区块和状态机当前区块都在主干上,
+// 且交易所在区块不高于当前区块。(账本里有这笔交易还不够: 它可能只在一个被放弃的分支区块里)
+func (t *State) isConfirmedOnCurrentChain(txid []byte) bool {
+	confirmedTx, err := t.sctx.Ledger.QueryTransaction(txid)
+	if err != nil {
+		return false
+	}
+	txBlock, err := t.sctx.Ledger.QueryBlockHeader(confirmedTx.Blockid)
+	if err != nil || !txBlock.InTrunk {
+		return false
+	}
+	curBlock, err := t.sctx.Ledger.QueryBlockHeader(t.GetLatestBlockid())
+	if err != nil || !curBlock.InTrunk {
+		return false
+	}
+	return txBlock.Height <= curBlock.Height
+}
+
 func (t *State) recoverUnconfirmedTx(undoList []*pb.Transaction) {
 	defer verifRecoverDone()
 	xTimer := timer.NewXTimer()
@@ -1251,8 +1269,7 @@ func (t *State) recoverUnconfirmedTx(undoList []*pb.Transaction) {
 		}
 
 		// 检查交易是否已经被确认（被其他节点打包倒区块并广播了过来）
-		isConfirm, err := t.sctx.Ledger.HasTransaction(tx.Txid)
-		if err != nil && isConfirm {
+		if t.isConfirmedOnCurrentChain(tx.Txid) {
 			confirmCnt++
 			t.log.Info("this tx has been confirmed,ignore recover", "txid", hex.EncodeToString(tx.Txid))
 			continue
@@ -1348,6 +1365,25 @@ func (t *State) processUnconfirmTxs(block *pb.InternalBlock, batch kvdb.Batch, n
 					"refTxid", utils.F([]byte(refTxid)))
 				return nil, nil, ErrParentUnconfirmed
 			}
+		}
+	}
+	// 区块确认的本地未确认交易当初是对着本地状态(含本地未确认交易)验证的, 执行区块时会被跳过。它读到的版本在区块的顺序里必须仍然有效:
+	// 排在它前面的区块交易如果写过它读的key, 它读到的必须正是那个版本, 否则其他节点重放这个区块时会因为读集过期而拒绝它
+	writtenInBlock := map[string]string{}
+	for _, tx := range block.Transactions {
+		if _, pending := unconfirmTxMap[string(tx.Txid)]; pending {
+			for _, txInputExt := range tx.TxInputsExt {
+				bucketAndKey := string(xmodel.MakeRawKey(txInputExt.Bucket, txInputExt.Key))
+				ver, written := writtenInBlock[bucketAndKey]
+				if written && ver != xmodel.MakeVersion(txInputExt.RefTxid, txInputExt.RefOffset) {
+					t.log.Warn("unconfirmed tx of the block read a version that an earlier block tx has overwritten",
+						"txid", utils.F(tx.Txid), "key", bucketAndKey)
+					return nil, nil, ErrRWSetInvalid
+				}
+			}
+		}
+		for txOutOffset, txOut := range tx.TxOutputsExt {
+			writtenInBlock[string(xmodel.MakeRawKey(txOut.Bucket, txOut.Key))] = xmodel.MakeVersion(tx.Txid, int32(txOutOffset))
 		}
 	}
 	undoDone := map[string]bool{}
